@@ -3,6 +3,16 @@
 import json, sys
 
 CHECKS = {
+ "C01": dict(
+   text="Bounded symbolic model checking of the real builders, IVPIterator::next and every stepper's step() instantiated at a symbolic scalar. Explicit solvers: (t0,t1,dt_min,dt_max,tol,y0) all symbolic and the right-hand side an arbitrary bounded function (uninterpreted tape), so every accept/reject/growth/clip pattern is a path whose feasibility z3 decides; implicit (BDF) solvers: seeded concrete affine problems with symbolic start, end and tolerance. Per yielded point z3 proves strict time order, containment in [t0,t1], gap <= dt_max, dimension, and for every completed run that the last point is the end time (Euler: one point per step time before the end). Complete runs on short horizons that straddle the multistep start-up boundaries, plus prefixes of unbounded runs.",
+   note="Exact real arithmetic on symbolic values (the 1-ulp landing of fl(t+fl(e-t)) is outside); bounds: horizon <= H*dt_min or first K points, dt_max <= r*dt_min; z3 unsat trusted, sat replayed on native f64.",
+   tech="symbolic execution of the real solver code at a term-building scalar; path feasibility and obligations by SMT (z3, QF_LRA/QF_NRA); DFS over decision tapes",
+   ref="6/C01"),
+ "C03": dict(
+   text="Bounded symbolic model checking of the real steppers with an arbitrary right-hand side (uninterpreted tape): for every attempted Runge-Kutta step z3 proves that each stage is evaluated at the published Fehlberg / Bogacki-Shampine node and stage state (tableaux as exact rationals), that an accepted point is the published update and that its embedded estimate is within tolerance; every Adams point is proved to be an RK4 step from the previous point or the AB-predict/AM-correct update of the preceding equally spaced points (derivatives looked up in the call log by solver-entailed argument equality) with estimate within tolerance; every BDF point an RK4 step or a solution of the BDF formula at the new time within tolerance (seeded affine problems, autonomous and non-autonomous); Euler points satisfy y+dt*f.",
+   note="Real arithmetic; reference tableaux transcribed by hand from the literature; first 2-3 points per solver (one-step claim from an arbitrary symbolic state), start-up + 2 multistep points; BDF on concrete seeded affine problems only.",
+   tech="symbolic execution of the real solver code at a term-building scalar + SMT (z3 nlsat) equivalence with rational reference formulas",
+   ref="6/C03"),
  "C19": dict(
    text="Bounded symbolic model checking of the real differentiate::derivative / second_derivative code instantiated at a symbolic scalar: for polynomial degree 0..5 with ALL coefficients, the point and the step symbolic over their boxes, z3 (nlsat) proves the stencil result equals the exact derivative (degree<=4 / <=3) and the exact leading error term just above; linearity is proved for arbitrary functions (uninterpreted tapes). Complete for the stated boxes in exact real arithmetic; rounding is outside.",
    note="Real arithmetic on symbolic values (constants are the exact IEEE doubles); z3 4.8.12 unsat verdicts trusted; sat verdicts must replay on the native f64 build.",
